@@ -35,7 +35,7 @@ var (
 	clientPath   = []string{"connection:Connection.Send", "connection:Connection.Call", "connection:Error.DispatchError", "connection:Error.Error", "connection:type Error", "connection:const More,Oneway,Continues,Upgrade", "orgvarlinkservice:type InterfaceNotFound", "orgvarlinkservice:type MethodNotFound", "orgvarlinkservice:type MethodNotImplemented", "orgvarlinkservice:type InvalidParameter"}
 	readerPath   = []string{"conn:Conn.Read", "conn:Conn.ReadBytes", "conn:Conn.Write", "conn:NewConn", "conn:type Conn"}
 	idlAll       = []string{"idl:New", "idl:isBlank", "idl:parser.advance", "idl:parser.backup", "idl:parser.next", "idl:parser.peek", "idl:parser.readAlias", "idl:parser.readError", "idl:parser.readFieldName", "idl:parser.readIDL", "idl:parser.readInterfaceName", "idl:parser.readKeyword", "idl:parser.readMethod", "idl:parser.readStructType", "idl:parser.readType", "idl:parser.readTypeName", "idl:type parser", "idl:type Type", "idl:type TypeField", "idl:type TypeKind", "idl:type Alias", "idl:type Method", "idl:type Error", "idl:type IDL", "idl:const TypeBool,TypeInt,TypeFloat,TypeString,TypeObject,TypeArray,TypeMaybe,TypeMap,TypeStruct,TypeEnum,TypeAlias"}
-	genAll       = []string{"gen:writeType", "gen:writeDocString", "gen:generateTemplate", "gen:resolvesToObject"}
+	genAll       = []string{"gen:writeType", "gen:writeDocString", "gen:generateTemplate", "gen:resolvesToObject", "gen:type source"}
 	lifecycleAll = []string{"service:Service.Bind", "service:Service.bind", "service:Service.Listen", "service:Service.DoListen", "service:Service.Shutdown", "service:Service.teardown", "service:Service.isRunning", "service:Service.setListener", "service:Service.GetListener", "service:Service.refreshTimeout", "service:Service.handleConnection", "service:Service.RegisterInterface", "service:type Service"}
 )
 
